@@ -355,6 +355,9 @@ func (w *c11Worker) observe(repo string) (o c11Obs) {
 		sort.Strings(un)
 		s["manifest:"+op] = fmt.Sprintf("dl=%s ul=%s retries=%d delay=%d conc=%d standalone=%v", strings.Join(dn, ","), strings.Join(un, ","),
 			m.MaxRetries(), m.MaxRetryDelay(), m.ConcurrentTransfers(), m.IsStandaloneTransfer())
+		// the SET of transfer adapters is a field of its own: no documented .lfsconfig key (not even the endpoint-changing
+		// lfs.url / remote.<name>.lfsurl, which may legitimately change the rest of the manifest) can add or remove an adapter
+		s["adapters:"+op] = "dl=" + strings.Join(dn, ",") + " ul=" + strings.Join(un, ",")
 	}
 	s["client-conc"] = fmt.Sprint(client.ConcurrentTransfers())
 	return
@@ -400,6 +403,11 @@ func (w *c11Worker) place(c c11Case, withLfsConfig bool) (repo string) {
 	}
 	// --- Git's own configuration
 	gcfg := c11BaseGitConfig(bare)
+	if strings.EqualFold(c.Key.Sec, "extensions") {
+		// Git refuses to open a version-0 repository whose own configuration names a v1-only extension
+		// (extensions.objectformat): the Git-side copy of such a key needs repositoryformatversion = 1.
+		gcfg = strings.Replace(gcfg, "repositoryformatversion = 0", "repositoryformatversion = 1", 1)
+	}
 	gitStanza := c11Stanza(c.Key, 0, c.Key.GitVal)
 	gs := c.GitSide
 	if gs == 5 && bare {
@@ -753,7 +761,7 @@ func (w *c11Worker) runInproc(x *vx.X, thorough bool) vx.Result {
 	sort.Strings(diffs)
 	eff := ""
 	if !o.LoadErr {
-		var unexplained []string
+		var unexplained, beaten []string
 		for _, f := range diffs {
 			switch {
 			case strings.HasPrefix(f, "giturl:"):
@@ -776,10 +784,20 @@ func (w *c11Worker) runInproc(x *vx.X, thorough bool) vx.Result {
 				}
 				viol("C11:filter-extension-registered:"+extClass, fmt.Sprintf("the set of filter extensions changed from [%s] to [%s] because of %q in .lfsconfig (warned as ignored: %v)", base[f], o.Snap[f], canon, warned))
 			default:
-				if !c11FieldAllowed(f, lkeys) {
+				if c.GitSide != 0 && c11FieldAllowed(f, []string{canon}) && !(companion != "" && c11FieldAllowed(f, []string{companion})) {
+					// clause E, observed through the consumers: the key is ALSO set in Git's own configuration, the baseline has
+					// exactly that Git configuration and no .lfsconfig, so a field this key controls must not move at all
+					// (a consumer that merges all values instead of taking Git's would show up here and nowhere else)
+					beaten = append(beaten, fmt.Sprintf("%s: %q -> %q", f, base[f], o.Snap[f]))
+				} else if !c11FieldAllowed(f, lkeys) {
 					unexplained = append(unexplained, fmt.Sprintf("%s: %q -> %q", f, base[f], o.Snap[f]))
 				}
 			}
+		}
+		if len(beaten) > 0 {
+			eff += " GIT-LOSES-IN-EFFECT"
+			viol("C11:lfsconfig-beats-git-in-effect:"+class+":"+c11GitSides[c.GitSide],
+				fmt.Sprintf("key %q is set to %q in Git's own configuration (%s) and to %q in .lfsconfig; Git's value must win, but what git-lfs does differs from the same Git configuration without .lfsconfig: %s", canon, k.GitVal, c11GitSides[c.GitSide], lvals, strings.Join(beaten, "; ")))
 		}
 		if len(unexplained) > 0 {
 			eff += " UNDOCUMENTED-EFFECT"
